@@ -352,8 +352,7 @@ WHAT = {
 
 def gen_damage_history(ad, rng, L):
     ops = []
-    for _ in range(L):
-        op = ad.gen_op(rng)
+    for op in ad.gen_history(rng, L):
         if op[0] == 'seed' and rng.random() < 0.7:
             op = (op[0], op[1], op[2], ad.DAMAGE_KINDS[rng.integers(len(ad.DAMAGE_KINDS))])
         if op[0] == 'call' and op[1].get('bd') == H.BADDIR:
